@@ -211,7 +211,9 @@ func NewBlockFromBytes(serializedBlock []byte) (*Block, error) {
 	if err != nil {
 		return nil, err
 	}
-	b.serializedBlock = serializedBlock
+	// Only the bytes the block was actually decoded from are its serialization;
+	// anything left unread in the input is not part of the block.
+	b.serializedBlock = serializedBlock[:len(serializedBlock)-br.Len()]
 	return b, nil
 }
 
